@@ -166,7 +166,7 @@ func checkC15(c *Ctx, w *World) {
 	} else {
 		atoms := []atomDef{boolAtom("named", nameOK), boolAtom("known", func(v ssa.Value) bool { return isExtractOf(stripConv(v), byName, 1) })}
 		cs := newCondSpace(g.pickConn, recOf(atoms...), atomNames(atoms...)...)
-		eq, wit := cs.Equiv(cs.OnlyNamed(cs.Reach(byDefault)), cs.Or(cs.Not(cs.Atom("named")), cs.Not(cs.Atom("known"))))
+		eq, wit := cs.EquivStrict(cs.Reach(byDefault), cs.Or(cs.Not(cs.Atom("named")), cs.Not(cs.Atom("known"))))
 		c.check(eq, "C15.pick", "pickConn: default fallback condition", p.ipos(byDefault), "the default MultiEndpoint is used ⇔ the context names none ∨ names an unknown one", "default MultiEndpoint is not used exactly when the context names none or an unknown one: "+wit)
 		// Current() is invoked on the phi of both lookups, and the result indexes pools; conn of that element is returned
 		okRet := false
